@@ -71,6 +71,7 @@ def unit_metric(ctx, kind, mode, dtype="uint8"):
     nm = f"metrics.Metric.__call__[{tag}]"
     info = {"kind": kind, "mode": mode, "dtype": dtype, "prefer": [["(<= size_S 8)"]]}
     ctx.expect(f"{nm}: at least one returning path", any(q.kind == "return" for q in paths))
+    ctx.side_obligations(paths, nm, func=fn, replay="c06.longlists", skip=lambda s_: not s_.startswith("np.isin"), info=dict(info, structural=True))
     for pi, q in enumerate(paths):
         sp, Rr, P = q.state["sp"], q.state["R"], q.state["P"]
         if mode == "bool" or mode == "binary":
@@ -220,6 +221,8 @@ def build(ctx):
 def concretise(ctx, o, r):
     if o.replay == "c06.cldice":
         return {"ndim": o.info.get("ndim")}
+    if o.replay == "c06.longlists":
+        return {"kind": o.info.get("kind", "DSC")}
     if o.replay != "c06.metric":
         return None
     ev = r.get("evals") or {}
